@@ -542,7 +542,8 @@ type Answer struct {
 type DNS struct {
 	n      *Net
 	Static map[string][]string
-	Script map[string][]Answer // per name, consumed one per lookup; the last one repeats
+	Script map[string][]Answer // per name, consumed one per lookup (or one per Period); the last one repeats
+	Period time.Duration       // >0: script entry k answers the lookups made around simulated time k*Period
 	pos    map[string]int
 	Lookups int
 	Log    []string
@@ -556,6 +557,10 @@ func (d *DNS) lookup(host string) ([]net.IP, error) {
 	var ans Answer
 	if sc, ok := d.Script[host]; ok && len(sc) > 0 {
 		i := d.pos[host]
+		if d.Period > 0 {
+			// the answer is a function of simulated time: lookups at the same instant agree
+			i = int((d.n.K.Elapsed() + d.Period/2) / d.Period)
+		}
 		if i >= len(sc) {
 			i = len(sc) - 1
 		}
